@@ -11,7 +11,10 @@ import sys_energy as se
 import coqrun
 from framework import Exploration
 
-ASSUMPTIONS = ["A-VM", "A-U64"]
+ASSUMPTIONS = ["A-VM", "A-U64",
+               "A-ATTR-PROXY: locked tokens at work through proxy_dex are attributed by CALLER (signed carried ledger, Props/C08_proxy.v): the "
+               "depositor keeps their energy, the account that redeems / burns them is debited; proxy_dex operations are outside the "
+               "operation list of C08's text, they are explored as an extension"]
 IMPORTS = "Base.Prelude Gen.Params Model.Energy Run.EnergyRun8"
 RULE = ("stateful mostly-valid generator over lock (own / other destination / lockVirtual), extend (own / via whitelisted "
         "contract), merge (2-3 nonces, same nonce twice, via contract), reduce, unlock (several nonces), unlockEarly, "
@@ -142,10 +145,16 @@ def explore(tier, seed, model_ok=True, focus=False):
                 ex.disagreements.append(dict(where="Run.EnergyRun8.check_trace", seed=sd, cfg=cfg, index=i, field=r[1],
                                              model=r[2], impl=r[3], op=trace[i][0], observed=strip(trace[i][1]),
                                              ops=[t[0] for t in trace]))
+    # closed composition proxy_dex x pair x two locked farms x energy factory (Model/ProxyClosed.v)
+    from props import proxy_closed_common as pcc
+    ex = pcc.merge(ex, pcc.explore_proxy_closed("C08", tier, seed, model_ok, focus, scale=((12, 40) if tier == "quick" else None)))
     return ex
 
 
 def replay(data):
+    if data.get("replay", {}).get("system") == "proxy_closed":
+        from props import proxy_closed_common as pcc
+        return pcc.replay_proxy_closed(data)
     rp = data["replay"]
     trace = se.replay_history(rp["cfg"], rp["ops"])
     fails = []
